@@ -91,6 +91,10 @@ class Sched(object):
                     sys.settrace(self._global_trace)
                 try:
                     fn()
+                except SchedAbort:
+                    raise
+                except BaseException as ex:      # the thread's function raised: remember why; the thread
+                    ts.exc = ex                  # still ends through its "end" operation like any other
                 finally:
                     if self.line_file:
                         sys.settrace(None)
@@ -310,6 +314,7 @@ class Backend(object):
         self.s = sched_ref[0]
         self.streams = []          # FakeStream in order of opening
         self.terminated = 0
+        self.fail_at = {}          # stream label -> number of the chunk whose write raises (fault injection)
         self.bad_write = []
         self.errors = []
 
@@ -325,6 +330,8 @@ class FakeStream(object):
         self.kw = kw
         self.state = "open"
         self.chunks = []           # (bytes, frames)
+        self.failed = False        # an injected write error has happened on this stream
+        self.fault_now = False
         self.nread = 0             # samples handed out by read()
         self.reads = 0             # read() calls
         self.nclose = 0
@@ -358,6 +365,11 @@ class FakeStream(object):
 
     def write(self, data, frames=None):
         self.backend.announce("write", self)
+        self.fault_now = False
+        if self.backend.fail_at.get(self.label) == len(self.chunks) + 1 and not self.failed:
+            self.failed = True
+            self.fault_now = True
+            raise IOError("injected device error")
         if self.state != "open":
             self.backend.bad_write.append(self.label)
         self.chunks.append((bytes(data), frames))
